@@ -346,3 +346,9 @@ func hasPrefixAny(s string, pre ...string) bool {
 	}
 	return false
 }
+
+// isBuiltin: the call is of the named builtin.
+func isBuiltin(c *ssa.Call, name string) bool {
+	b, ok := c.Call.Value.(*ssa.Builtin)
+	return ok && b.Name() == name && len(c.Call.Args) >= 1
+}
